@@ -53,7 +53,18 @@ def universes(rng, n, fixed=True):
             uses = rng.sample([old_name(r) for r in RENAME_DIRS], rng.choice([1, 1, 2]))
             files.append((fd, uses))
         combos.append((rds, files))
-    for rds, files in combos:
+    extras = [([], [])] * len(combos)
+    if fixed:
+        # rename files named on the command line / found below an --includes directory are global
+        for rd, inc in (("R/sib", False), ("R/orphan", False), ("R/proj/nested", False), ("R/orphan", True), ("R/proj/nested", True), ("R/proj", True)):
+            combos.append(([rd, "R/proj/sub"], [(fd, [old_name(rd)]) for fd in ("R/proj", "R/sib", "R/components/c")]))
+            extras.append(([] if inc else [rd], [rd] if inc else []))
+    for _ in range(n // 4):
+        rds = rng.sample(RENAME_DIRS, rng.choice([2, 3]))
+        files = [(rng.choice(FILE_DIRS), rng.sample([old_name(r) for r in RENAME_DIRS], rng.choice([1, 2]))) for _ in range(rng.choice([2, 3]))]
+        combos.append((rds, files))
+        extras.append((rng.sample(rds, 1) if rng.random() < 0.6 else [], [rng.choice(["R/orphan", "R/proj/nested", "R/sib", "R/proj"])] if rng.random() < 0.6 else []))
+    for (rds, files), (explicit, includes) in zip(combos, extras):
         projects = set(PROJECTS_DEFAULT)
         if rng.random() < 0.2:
             projects.discard(rng.choice(sorted(projects)))
@@ -66,6 +77,8 @@ def universes(rng, n, fixed=True):
                 "idf": "R",
                 "components": "R/components",
                 "files": [{"dir": fd, "uses": uses} for fd, uses in files],
+                "explicit": list(explicit),
+                "includes": list(includes),
             }
         )
     return out
@@ -114,7 +127,8 @@ def main(run):
         for r in range(0, n + 1):
             for order in itertools.permutations(range(n), r):
               with contextlib.redirect_stdout(sink):
-                  files, gdep, ldep, ignore, cache, idf = cdo._prepare_deprecated_options([], [], [paths[k] for k in order])
+                  named = [os.path.join(real[d_], "sdkconfig.rename") for d_ in u["explicit"] if u["rename"][d_]]
+                  files, gdep, ldep, ignore, cache, idf = cdo._prepare_deprecated_options([real[d_] for d_ in u["includes"]], [], [paths[k] for k in order] + named)
                   verdict = ["<unset>"] * n
                   err = None
                   for k in order:
@@ -142,7 +156,9 @@ def main(run):
         # the command line, once per universe (all files, given order)
         if tier == "thorough" or ui % 6 == 0:
             env = dict(os.environ, IDF_PATH=real["R"], PYTHONPATH=REPO)
-            p = subprocess.run([sys.executable, "-m", "kconfcheck", "--check", "deprecated"] + paths, cwd=real["R"], env=env, capture_output=True, text=True)
+            named = [os.path.join(real[d_], "sdkconfig.rename") for d_ in u["explicit"] if u["rename"][d_]]
+            incl = [a for d_ in u["includes"] for a in ("--includes", real[d_])]
+            p = subprocess.run([sys.executable, "-m", "kconfcheck", "--check", "deprecated"] + paths + named + incl, cwd=real["R"], env=env, capture_output=True, text=True)
             want_fail = any(v == "flagged" for v in obs["<<" + ", ".join(str(k + 1) for k in range(n)) + ">>"]["verdict"])
             if (p.returncode != 0) != want_fail:
                 run.report("python -m kconfcheck --check deprecated: exit status %d, per-file verdicts %s" % (p.returncode, obs), {"universe": u, "stderr": p.stderr[-500:]}, {"cli-exit-status"})
